@@ -27,6 +27,7 @@ func checkC14(p *Prog, r *Report) {
 	rErr := r.Rule("exit-status-returned", "Wait's error is what Go returns")
 	rIn := r.Rule("stdin-unchanged", "SetInput stores its reader into cmd.Stdin unchanged")
 	checkC14Wrappers(p, r, r.Rule("wrappers-pass-through", "a reader which the implant's own code puts between the transport and the command (a counter, a meter) hands on exactly what its inner Read returned: data which arrives together with the end of the stream is not dropped"))
+	checkC14SessionUnbounded(p, r, r.Rule("session-unbounded", "nothing in lib/simpleshell puts a clock on the whole exchange (http.Client.Timeout covers reading the response body, i.e. the input stream, and sending the request body, i.e. the output stream)"))
 
 	/* The output writer is the *io.PipeWriter CmdShell holds (directly or in
 	a struct of its own); whatever it is called. */
@@ -910,5 +911,64 @@ func checkC14Wrappers(p *Prog, r *Report, ru *Rule) {
 	}
 	if 0 == n {
 		ru.OK("simpleshell:no-wrapping-readers", token.NoPos, "no reader of the implant wraps another")
+	}
+}
+
+
+// checkC14SessionUnbounded: the shell lasts as long as the command does.
+// http.Client.Timeout is a deadline for the whole exchange, bodies included:
+// when it runs out the input stream dies and the output stream is closed.
+func checkC14SessionUnbounded(p *Prog, r *Report, ru *Rule) {
+	n := 0
+	for _, fn := range p.Funcs() {
+		if nil == fn.Pkg || !strings.Contains(fn.Pkg.Pkg.Path(), "/"+sshPkg) {
+			continue
+		}
+		eachInstr(fn, func(i ssa.Instruction) {
+			if st, ok := i.(*ssa.Store); ok {
+				fv, base := fieldAddrOf(st.Addr)
+				if nil == fv || nil == base || "Timeout" != fv.Name() || !typeIs(base.Type(), "net/http", "Client") {
+					return
+				}
+				if k, isC := constInt(st.Val); isC && k <= 0 {
+					return
+				}
+				n++
+				ru.Bad(fnName(fn)+":http.Client.Timeout", posOf(st), "http.Client.Timeout is set: it also bounds reading the response body and sending the request body — the two streams of the shell, which are cut when it runs out")
+				return
+			}
+			if c := callCommon(i); nil != c {
+				switch nm := calleeName(c); nm {
+				case "context.WithTimeout", "context.WithDeadline", "context.WithTimeoutCause", "context.WithDeadlineCause":
+					/* A deadline on the context the request (or the command) runs under. */
+					used := false
+					var res ssa.Value = i.(ssa.Value)
+					if ex := extractOf(i.(*ssa.Call), 0); nil != ex {
+						res = ex
+					}
+					eachInstr(fn, func(j ssa.Instruction) {
+						c2 := callCommon(j)
+						if nil == c2 {
+							return
+						}
+						switch calleeName(c2) {
+						case "net/http.NewRequestWithContext", "(*net/http.Request).WithContext", "os/exec.CommandContext":
+							for _, a := range c2.Args {
+								if resolveCell(a) == res {
+									used = true
+								}
+							}
+						}
+					})
+					if used {
+						n++
+						ru.Bad(fnName(fn)+":"+lastName(nm), posOf(i), "the request (or the command) runs under a context from %s: the shell ends when that clock runs out", nm)
+					}
+				}
+			}
+		})
+	}
+	if 0 == n {
+		ru.OK("lib/simpleshell:no-session-clock", token.NoPos, "no http.Client.Timeout and no deadline context around the request or the command")
 	}
 }
